@@ -453,6 +453,12 @@ async fn run_history(c: &Value) -> Value {
           .collect();
         let _ = m2s_tx.send(OutboundPrivatePayload { payload: pb, targets });
       },
+      "link_down" => {
+        match _chain.as_mut() {
+          Some(ch) => ch.s2m_down().await,
+          None => note = json!("no wire path in this history"),
+        }
+      },
       "shutdown" => {
         let m2 = mng.clone();
         let r = tokio::time::timeout(Duration::from_millis(op.get("wait_ms").and_then(|v| v.as_u64()).unwrap_or(60_000)), m2.shutdown()).await;
